@@ -47,7 +47,7 @@ Proof.
   - intros id att _. reflexivity.
   - intros id att [a|] IH H; [|reflexivity]. rewrite at_inline_term. cbn [forallb atom_literal andb]. apply IH. exact H.
   - intros id _. reflexivity.
-  - intros e IH H. cbn [at_inline forallb atom_literal andb]. apply IH. exact H.
+  - intros e IH [H _]. cbn [at_inline forallb atom_literal andb]. apply IH. exact H.
   - intros s vs IHs IHvs H. apply shape_select in H as (Hs & _ & _ & Hvs).
     change (at_expr (Select s vs)) with (at_inline s ++ flat_map at_variant vs).
     rewrite forallb_app, (IHs Hs), forallb_flat_map. cbn [andb]. apply forallb_Forall_true.
